@@ -30,14 +30,17 @@ META = {
                   'reachable with <= 2 assembly calls over 6 templates x 2 resource kinds x suffix, 4 sink prefixes, 2 static '
                   'prefixes x fallback, both flag values (1 686) + one route with every subset of a 6-method universe x 2 '
                   'suffixed sets x 9 methods (514); thorough = <= 2 calls with 4 resource kinds (5 238) and <= 3 calls with 2 '
-                  '(39 702).  Replay: the one-call tables in full, two-call tables over reduced pools (quick) / in full '
+                  '(39 702).  Replay: the one-call tables in full, two-call tables over reduced pools (quick) / in full, the two stacks taking turns per configuration '
                   '(thorough), TLC-simulated 4-6 call histories with sampled rows; random apps up to 12 routes / 6 sinks / 3 '
                   'static routes with assembly interleaved with requests.  Route templates have literal and single-field '
                   'segments only (converters / multi-field segments belong to C01); sink prefixes are built from literal text, '
                   'named and unnamed \\d+ / [^/]+ groups, unnamed alternations, trailing optional unnamed groups and named groups '
                   'inside optional (non-)capturing groups (key set of the kwargs = all named groups: P; the None of a group that '
                   'took no part: D); static prefixes in both spellings (/a, /a/); every 3-call re-registration history of '
-                  'sinks / static routes is replayed.  What a picked static route does with the rest of the path is '
+                  'sinks / static routes is replayed.  Outside the model, rotated by the harness on every replay: truthiness of the '
+                  'resource object (plain, __len__ 0, __bool__ False, empty / non-empty dict and list subclasses), non-callable '
+                  'decoy attributes named like responders (truthy and falsy, class and instance, with and without suffix), '
+                  'sink prefixes as strings / precompiled patterns.  What a picked static route does with the rest of the path is '
                   'modelled only as far as needed to recognise it (C16 owns it); OPTIONS answered by a static route is not '
                   'distinguishable from other 200 + Allow: GET answers.  Trusted: TLC, engine/drivers.py, CPython re/os.',
 }
@@ -101,8 +104,21 @@ def sink_regex(pat):
 # generated application parts: they only record that they ran
 # ---------------------------------------------------------------------------------------------
 
-def make_resource(rid, plain, sfxm, asgi, log, act=None):
-    """act(req, resp), if given, is what the generated user code does besides recording itself (used by C20)"""
+# What the model does NOT contain, so the harness rotates over it (spec/Dispatch.tla, ImplOf): the truthiness of the
+# resource object and attributes that are named like responders but are not callable.
+DECOY_METHODS = ['UPDATE', 'LOCK', 'REPORT', 'GET', 'POST', 'DELETE', 'OPTIONS', 'PROPFIND', 'HEAD', 'PUT', 'MKCOL']
+DECOY_TRUTHY = ['notify-owner', ['audit'], 7, ('monthly',), {'k': 'v'}]
+DECOY_FALSY = ['', [], 0, None, ()]
+FLAVORS = 7
+
+
+def make_resource(rid, plain, sfxm, asgi, log, act=None, flavor=None):
+    """A resource object whose CALLABLE on_<method>[_s] attributes are exactly `plain` / `sfxm`.
+    act(req, resp), if given, is what the generated user code does besides recording itself (used by C20).
+    flavor (int or None = a plain object without decoys) selects
+      - what kind of object it is: plain, __len__() == 0, __bool__() is False, empty / non-empty dict or list subclass
+      - decoy attributes named like responders of methods it does NOT implement, holding non-callable data
+        (truthy and falsy; on the class and on the instance; with and without the suffix)."""
     ns = {}
     for methods, suffix in ((plain, ''), (sfxm, 's')):
         for m in methods:
@@ -122,7 +138,34 @@ def make_resource(rid, plain, sfxm, asgi, log, act=None):
                     if act:
                         act(req, resp)
             ns[name] = responder
-    return type('Res%d' % rid, (object,), ns)()
+    if flavor is None:
+        return type('Res%d' % rid, (object,), ns)()
+    f = (flavor + rid) % FLAVORS
+    base = (object, object, object, dict, list, dict, list)[f]
+    if f == 1:
+        ns['__len__'] = lambda self: 0
+    elif f == 2:
+        ns['__bool__'] = lambda self: False
+    later = []
+    for gi, (methods, suffix) in enumerate(((plain, ''), (sfxm, 's'))):
+        cand = [m for m in DECOY_METHODS if m not in methods]
+        k = (flavor + rid + gi) % len(cand)
+        cand = cand[k:] + cand[:k]
+        for j, m in enumerate(cand[:4]):
+            name = 'on_' + m.lower() + ('_' + suffix if suffix else '')
+            val = DECOY_FALSY[(flavor + j) % len(DECOY_FALSY)] if j == 2 else DECOY_TRUTHY[(flavor + rid + j) % len(DECOY_TRUTHY)]
+            if j % 2:
+                later.append((name, val))          # instance attribute
+            else:
+                ns[name] = val                     # class attribute
+    res = type('Res%d' % rid, (base,), ns)()
+    for name, val in later:
+        setattr(res, name, val)
+    if f == 5:
+        res['k'] = 1
+    elif f == 6:
+        res.append(1)
+    return res
 
 
 def make_sink(sid, asgi, log, act=None):
@@ -187,14 +230,17 @@ class StaticDirs:
 class Built:
     """A real app assembled through the public API from a list of spec-level assembly calls."""
 
-    def __init__(self, asgi, sbs, dirs, act=None, compiled=False, **app_kw):
+    def __init__(self, asgi, sbs, dirs, act=None, compiled=None, **app_kw):
         import falcon
         import falcon.asgi
         self.asgi = asgi
         self.log = []
         self.dirs = dirs
         self.act = act
-        self.compiled = compiled   # sink prefixes handed to add_sink: 0 as strings, 1 precompiled, 2 every other one
+        # `compiled` is the harness variant (None = canonical): variant % 3 = how sink prefixes are handed to add_sink
+        # (0 strings, 1 precompiled, 2 every other one), variant // 3 = resource flavor (see make_resource)
+        self.compiled = (compiled or 0) % 3
+        self.flavor = None if compiled is None else compiled // 3
         self.statics = []          # (id, prefix text)
         self.app = (falcon.asgi.App if asgi else falcon.App)(sink_before_static_route=bool(sbs), **app_kw)
 
@@ -202,7 +248,7 @@ class Built:
         """perform one assembly call; returns (accepted, exception name)"""
         try:
             if c['op'] == 'route':
-                res = make_resource(c['id'], c['plain'], c['sfxm'], self.asgi, self.log, self.act)
+                res = make_resource(c['id'], c['plain'], c['sfxm'], self.asgi, self.log, self.act, self.flavor)
                 kw = {'suffix': c['sfx']} if c['sfx'] else {}
                 self.app.add_route(template_str(c['tmpl']), res, **kw)
             elif c['op'] == 'sink':
@@ -337,7 +383,7 @@ def replay_config(ctx, cfg, stacks, dirs, sample=None):
     n = 0
     hd = digest(h)
     for asgi in stacks:
-        compiled = (int(hd, 16) + asgi) % 3
+        compiled = (int(hd, 16) + asgi) % (3 * FLAVORS)
         b = Built(asgi, sbs, dirs, compiled=compiled)
         bad = False
         for c in h:
@@ -345,8 +391,10 @@ def replay_config(ctx, cfg, stacks, dirs, sample=None):
             if ok != c['ok']:
                 ctx.detail('D:addroute', {'h': h, 'asgi': asgi}, 'assembly call %r: spec accepted=%s, code accepted=%s (%s)'
                            % (c['op'], c['ok'], ok, exn))
-                bad = True
-                break
+                if c['ok']:
+                    bad = True     # the code refused a call the spec accepts: nothing to compare
+                    break
+                # the code accepted a suffix that selects no responder: go on, the table (route absent) judges what follows
         if bad:
             continue
         obs = run_requests(b, [(e['m'], e['p']) for e in rows])
@@ -455,7 +503,9 @@ def leg_a(ctx, dirs):
         for i, k in enumerate(sorted(cfgs2)):
             # quick, two-call export: the two stacks take turns (every configuration runs, on one stack)
             # (A3r: every 3-call history of sinks / static routes over a small pool, i.e. every re-registration A, B, A)
-            stacks = (False, True) if (cfg == 'MC_DispatchA1.cfg' or not ctx.quick) else ((i + ctx.seed) % 2 == 1,)
+            # one-call tables and A3r (thorough) on both stacks; the two-call tables take the stacks in turn
+            stacks = (False, True) if (cfg == 'MC_DispatchA1.cfg' or (cfg == 'MC_DispatchA3r.cfg' and not ctx.quick)) \
+                else ((i + ctx.seed) % 2 == 1,)
             replayed += replay_config(ctx, cfgs2[k], stacks, dirs)
         ncfg += len(cfgs2)
         ctx.progress('leg A (exhaustive tables, %s): %d configurations, %d requests replayed in total'
@@ -688,7 +738,7 @@ def gen_scenario(rng):
     return {'sbs': rng.random() < 0.5, 'steps': steps}
 
 
-def run_scenario(sc, asgi, dirs, compiled=0):
+def run_scenario(sc, asgi, dirs, compiled=None):
     """drive one scenario on a real app; returns the trace for DispatchTrace"""
     b = Built(asgi, sc['sbs'], dirs, compiled=compiled)
     evs = []
@@ -726,7 +776,7 @@ def leg_b(ctx, dirs):
     for i in range(nsc):
         sc = gen_scenario(ctx.rng)
         for asgi in (False, True):
-            tr = run_scenario(sc, asgi, dirs, compiled=(i + asgi) % 3)
+            tr = run_scenario(sc, asgi, dirs, compiled=(i + asgi) % (3 * FLAVORS))
             kinds = set()
             for e in tr['ev']:
                 if e['op'] != 'req':
@@ -750,7 +800,7 @@ def leg_b(ctx, dirs):
             continue
         clause, at = v.split('@')
         ev = tr['ev'][int(at) - 1] if 0 < int(at) <= len(tr['ev']) else None
-        case = {'asgi': asgi, 'sbs': tr['sbs'], 'compiled': (i + asgi) % 3, 'trace': {'sbs': tr['sbs'], 'ev': tr['ev'][:int(at)]}}
+        case = {'asgi': asgi, 'sbs': tr['sbs'], 'compiled': (i + asgi) % (3 * FLAVORS), 'trace': {'sbs': tr['sbs'], 'ev': tr['ev'][:int(at)]}}
         what = 'trace of a random %s app rejected by DispatchTrace at event %s: %s %s observed %r %s' % (
             'ASGI' if asgi else 'WSGI', at, ev and ev['m'], ev and text(ev['p']), ev and ev['obs'],
             ev.get('problem', '') if ev else '')
@@ -770,7 +820,7 @@ def replay(ctx, case):
         if 'trace' in case:
             sc = {'sbs': case['sbs'], 'steps': [e if e['op'] != 'req' else ('req', e['m'], text(e['p']))
                                                 for e in case['trace']['ev']]}
-            tr = run_scenario(sc, case['asgi'], dirs, compiled=case.get('compiled', 0))
+            tr = run_scenario(sc, case['asgi'], dirs, compiled=case.get('compiled'))
             print('last event:', tr['ev'][-1])
             v = ctx.judge('DispatchTrace', [tr], workers=1)[0]
             print('verdict:', v)
@@ -778,7 +828,7 @@ def replay(ctx, case):
                 ctx.violation(v.split('@')[0], case, 'trace rejected at %s' % v)
             return
         for asgi in ([case['asgi']] if 'asgi' in case else [False, True]):
-            b = Built(asgi, case['sbs'], dirs, compiled=case.get('compiled', 0))
+            b = Built(asgi, case['sbs'], dirs, compiled=case.get('compiled'))
             for c in case['h']:
                 print('assembly', c['op'], b.call(c))
             o = run_requests(b, [(case['m'], case['p'])])[0]
